@@ -28,6 +28,8 @@ INLINE_PREFIX = ("rscel::compiler::compiled_prog::", "rscel::program::program_de
                  "rscel::compiler::ast_node::AstNode", "rscel::compiler::compiler::pattern_utils::", "<rscel::compiler::compiled_prog::",
                  "<rscel::compiler::grammar::")
 INLINE_METHODS = ("parse_expression_list", "parse_obj_inits", "check_for_const", "enter_nested", "leave_nested")
+# atoms of the rules (R09.3 / R09.6 read them as predicates), and the label counter
+OPAQUE_METHODS = ("reads_clock", "holds_error", "new_label", "with_tokenizer", "compile")
 
 
 # parse functions whose result is code by construction (base case CompiledProg::empty(), steps append an opcode): their children are
@@ -60,6 +62,7 @@ def as_codepoint(v):
 class CompilerPolicy(symex.Policy):
     loop_limit = 3
     max_paths = 6000
+    max_steps = 40000000     # a parse function split into helpers re-executes shared tails; the budget only bounds run-away extraction
     cut_errors = True
 
     def __init__(self, root):
@@ -88,6 +91,9 @@ class CompilerPolicy(symex.Policy):
         if path.startswith(CC) and path[len(CC):] in INLINE_METHODS:
             return True
         if path.startswith(CC) and "::{closure" in path:
+            return True
+        # any other helper of the compiler that is not a grammar level (a routine split off a parse function): part of the function that calls it
+        if path.startswith(CC) and path[len(CC):] not in LEVELS and path[len(CC):] not in OPAQUE_METHODS and "::" not in path[len(CC):]:
             return True
         return False
 
